@@ -123,9 +123,21 @@ class Gen:
 HEADER = ["from rt import *"]          # line 1
 
 
-def layout(module, plain=False):
+def layout(module, plain=False, deco_rng=None):
+    """deco_rng: when given (C04 only; such files are not executed by CPython), defs and classes randomly get decorator
+    lines above their header and defs are randomly async; the statement id stays the header line."""
     lines = list(HEADER)
     IND = "    "
+
+    def decorate(ind, is_def):
+        if deco_rng is None:
+            return ""
+        for _ in range(deco_rng.choice([0, 0, 1, 1, 2])):
+            d = deco_rng.choice(["@staticmethod" if ind else "@cache", "@wraps(len)", "@property" if ind else "@timed", "@dec(1,"])
+            lines.append(IND * ind + d)
+            if d.endswith(","):
+                lines.append(IND * ind + "     2)")
+        return "async " if (is_def and deco_rng.random() < 0.3) else ""
 
     def emit(text, ind):
         lines.append(IND * ind + text)
@@ -208,12 +220,14 @@ def layout(module, plain=False):
                 cases.append((ck, blk(cb, ind + 2)))
             return ('match', k, cases)
         if c == 'def':
+            pre = decorate(ind, True)
             if ind == 0:
-                k = emit("def f%d():" % s[2], ind)
+                k = emit(pre + "def f%d():" % s[2], ind)
             else:
-                k = emit("def f%d(_=M(%d)):" % (s[2], len(lines) + 1), ind)
+                k = emit(pre + "def f%d(_=M(%d)):" % (s[2], len(lines) + 1), ind)
             return ('def', k, s[2], blk(s[3], ind + 1))
         if c == 'class':
+            decorate(ind, False)
             k = emit("class K%d(B(%d)):" % (s[2], len(lines) + 1), ind)
             return ('class', k, s[2], blk(s[3], ind + 1))
         raise AssertionError(c)
